@@ -82,7 +82,7 @@ def gen_case(rng, i):
             common = {f"c{j}": j for j in range(shared)}
             samples[0] = dict(samples[0], pct_a={**common, **{f"a{j}": 1 for j in range(rest // 2)}},
                               pct_b={**common, **{f"b{j}": 1 for j in range(rest - rest // 2)}})
-            force_merge = [f"percent_{N}"]
+            force_merge = [f"percent_{N}"] if rng.random() < 0.7 else ["percent_99", f"percent_{N}"]
         if rng.random() < 0.2:
             # two wide objects sharing 10 keys but < 70 % of them: merged only by the default number_10 policy
             common = {f"c{j}": j for j in range(10)}
@@ -95,11 +95,16 @@ def gen_case(rng, i):
         cuts = sorted(rng.sample(range(1, len(samples)), nfiles - 1)) if nfiles > 1 else []
         parts = [samples[a:b] for a, b in zip([0] + cuts, cuts + [len(samples)])]
         use_glob = nfiles >= 2 and rng.random() < 0.3
-        sub = f"g{name.lower()}" if use_glob else ""
+        # directory names with '[' ']' are literal in the part of a path before the pattern; '*' also matches dot-files
+        sub = (f"g{name.lower()}" + rng.choice(["", "", "[2024]", " [a-b]"])) if use_glob else ""
         glob_members = []
         for part in parts:
             ext = "yaml" if fmt == "yaml" else "json"
             p = os.path.join(sub, f"{name.lower()}{fcount}.{ext}")
+            if use_glob and rng.random() < 0.25:
+                p = os.path.join(sub, f".{name.lower()}{fcount}.{ext}")
+            elif not use_glob and rng.random() < 0.15:
+                p = f"{name.lower()}[{fcount}].{ext}"  # a literally named file (no '*' or '?': not a pattern)
             fcount += 1
             r = rng.random()
             lookup = None
@@ -110,6 +115,12 @@ def gen_case(rng, i):
                 doc = part
                 for key in reversed(lookup.split(".")):
                     doc = {key: doc, "other": 1}
+                if "." in lookup and rng.random() < 0.4:
+                    # sibling keys spelled like the (rest of the) dotted lookup: a lookup walks the path, it is not a key
+                    doc[lookup] = [{"decoy_full": 1}]
+                    head, rest = lookup.split(".", 1)
+                    if "." in rest:
+                        doc[head][rest] = [{"decoy_rest": "s"}]
                 if len(part) == 1 and rng.random() < 0.5:
                     # lookup selecting an object
                     doc = part[0]
@@ -161,7 +172,9 @@ def gen_case(rng, i):
         expect[name].sort(key=pos_of)
     o = {"framework": rng.choice(["base", "pydantic", "attrs", "dataclasses", "sqlmodel"]), "structure": rng.choice(["flat", "nested", None]),
          "datetime": rng.random() < 0.35, "strings_converters": rng.random() < 0.35, "max_literals": rng.choice([None, 0, 1, 5, 16]),
-         "no_unidecode": rng.random() < 0.2, "merge": rng.choice([None, ["exact"], ["percent_50"], ["number_2"], ["percent_80", "number_3"], ["percent"], ["number"]]),
+         "no_unidecode": rng.random() < 0.2, "merge": rng.choice([None, ["exact"], ["percent_50"], ["number_2"], ["percent_80", "number_3"], ["percent"], ["number"],
+                               # the same kind of policy twice with different thresholds (any one accepting is enough)
+                               ["percent_90", "percent_50"], ["number_12", "exact", "number_3"], ["percent_95", "number_11", "percent_40"]]),
          "disable": rng.choice([None, None, ["int"], ["float", "bool"], ["IntString"], ["date"], ["datetime", "time"], ["IsoDateString"]]),
          "meta": rng.choice([None, None, "true", "false"]), "preamble": rng.choice([None, None, "# preamble comment", "X = 1\nY = 2"]),
          "output_file": rng.random() < 0.3, "dkf": None, "dkr": None}
